@@ -46,6 +46,13 @@ def random_cell(rng):
     if kind == "triclinic":
         while True:
             al, be, ga = (math.radians(rng.uniform(50, 130)) for _ in range(3))
+            co = rng.choice(["none", "none", "al=ga", "al=be", "be=ga"])      # equal angles that do not make the cell monoclinic
+            if co == "al=ga":
+                ga = al
+            elif co == "al=be":
+                be = al
+            elif co == "be=ga":
+                ga = be
             ca, cb, cg = math.cos(al), math.cos(be), math.cos(ga)
             if 1 - ca * ca - cb * cb - cg * cg + 2 * ca * cb * cg > 0.08:
                 break
@@ -107,13 +114,31 @@ def random_crystal(rng, molecular=False):
             n = rng.randint(1, 4)
             pos = np.array([[rng.uniform(0.02, 0.98) for _ in range(3)] for _ in range(n)])
             els = [Element[rng.choice([1, 6, 7, 8, 16])] for _ in range(n)]
-            c = Crystal(uc, sg, AsymmetricUnit(els, pos))
-            u = c.unit_cell_atoms()
-            P = np.asarray(u["cart_pos"])
-            if len(P) > 1:
-                from scipy.spatial import cKDTree
-                if cKDTree(np.asarray(u["frac_pos"]), boxsize=1.0 + 1e-9).query_pairs(0.03):
-                    continue
+            kw = {}
+            extra = rng.random()
+            if extra < 0.15:
+                # an atom on the origin / a face centre whose zero coordinates carry round-off (as after Cartesian -> fractional)
+                sp = np.array([rng.choice([0.0, 0.5]) for _ in range(3)])
+                sp = np.where(sp == 0.0, np.array([rng.choice([-3.4e-17, 5.6e-17, -1.1e-16, 0.0]) for _ in range(3)]), sp)
+                pos = np.vstack([pos, sp[None, :]])
+                els = els + [Element[26]]
+            elif extra < 0.3:
+                # one site shared by two species (mixed occupancy 0.6 / 0.4)
+                pos = np.vstack([pos, pos[-1:]])
+                els = els + [Element[12 if els[-1].atomic_number != 12 else 26]]
+                kw["occupation"] = np.array([1.0] * (len(els) - 2) + [0.6, 0.4])
+            c = Crystal(uc, sg, AsymmetricUnit(els, pos, **kw))
+            # the orbit computed here, independently: distinct images modulo the lattice (coincident within 1e-6 = the same site)
+            from scipy.spatial import cKDTree
+            imgs = np.vstack([np.asarray(pos, dtype=float) @ np.asarray(o.rotation, dtype=float).T + np.asarray(o.translation, dtype=float) for o in sg.symmetry_operations])
+            imgs = np.mod(np.round(np.mod(imgs, 1.0), 9), 1.0)
+            tree = cKDTree(imgs, boxsize=1.0 + 1e-9)
+            same = tree.query_pairs(1e-6)
+            drop = {j for (_, j) in same}
+            uniq = np.array([p_ for k_, p_ in enumerate(imgs) if k_ not in drop])
+            if len(uniq) > 1 and cKDTree(uniq, boxsize=1.0 + 1e-9).query_pairs(0.03):
+                continue          # distinct sites closer than the merge tolerance: the expected answer would be ambiguous
+            c._c03_orbit_size = len(uniq)
             return kind, c
     return None, None
 
@@ -507,6 +532,10 @@ def judge(seed):
         return None, None, True
     ang = np.degrees(c.unit_cell.angles)
     nontrivial = bool(np.any(np.abs(ang - 90) > 10))
+    n_orbit = getattr(c, "_c03_orbit_size", None)
+    if n_orbit is not None and len(c.unit_cell_atoms()["element"]) != n_orbit:
+        return which + ":" + kind, (f"the cell holds {n_orbit} distinct sites (orbit of the asymmetric unit modulo the lattice) but {len(c.unit_cell_atoms()['element'])} "
+                                    "unit-cell atoms are used for every neighbourhood query: an atom is reported twice / missing in every periodic image"), nontrivial
     # a crystal whose atoms were moved in place (X-H bond lengths normalised) after it had already answered a query is still a crystal
     history = which in ("env", "group") and rng.random() < 0.35
     for _ in range(6):
